@@ -298,7 +298,7 @@ func (gb *gcpBalancer) initializeConfig(cfg *GCPBalancerConfig) {
 }
 
 func (gb *gcpBalancer) enforceMinSize() {
-	for len(gb.scRefs) < int(gb.cfg.GetChannelPool().GetMinSize()) {
+	for uint64(len(gb.scRefs)) < uint64(gb.cfg.GetChannelPool().GetMinSize()) {
 		if !gb.addSubConn() {
 			return
 		}
@@ -381,7 +381,8 @@ func (gb *gcpBalancer) newSubConnIfEmpty() {
 func (gb *gcpBalancer) newSubConnBelowMax() bool {
 	gb.mu.Lock()
 	defer gb.mu.Unlock()
-	if maxSize := gb.cfg.GetChannelPool().GetMaxSize(); maxSize != 0 && len(gb.scRefs) >= int(maxSize) {
+	// Compare in 64 bits: int(maxSize) is negative for sizes from 2^31 on where int has 32 bits.
+	if maxSize := gb.cfg.GetChannelPool().GetMaxSize(); maxSize != 0 && uint64(len(gb.scRefs)) >= uint64(maxSize) {
 		return false
 	}
 	// The caller found every channel of its picker busy, but that picker may be an old one: a
